@@ -463,3 +463,79 @@ def e_items(v):
     if isinstance(v, T) and v.op == 'tuple':
         return list(v.args)
     return None
+
+
+# ----------------------------------------------------------------------
+# R-EXECFLOW (C05, C10): execute() hands the caller's statement and parameters to the compiler as they are
+
+def rule_execflow(P) -> RuleResult:
+    """Cursor.execute on terms, for statement text and for a parsed statement: the compiler receives the connection context, the
+    statement (parsed from exactly the text given, or the tree given) and the caller's parameter object itself - whether it is a
+    mapping or a sequence, empty or not, decides which placeholder errors the compiler reports, so no value but None may be replaced
+    on the way - and execute_query receives what the compiler returned."""
+    res = RuleResult('R-EXECFLOW')
+    res.exhaustive = True
+    cur = P.cls(CU, 'Cursor')
+    ex = cur.methods.get('execute')
+    if ex is None:
+        raise AnalysisError('anchor vanished: Cursor.execute')
+    # a bare symbol stands for an object (true); the parameters may be any value, empty containers included: a term of undecided truth
+    QUERY, PARAMS = Sym('STATEMENT'), T('attr', (Sym('CALLER'), 'parameters'))
+    if len(ex.params) < 3:
+        raise AnalysisError(f'{ex.fq}: parameters changed: {ex.params}')
+    for parsed in (True, False):
+        def on_call(fname, fval, recv, args, kwargs, e, node):
+            f = str(fname)
+            if f.endswith('execute_query'):
+                e.events.append(('x-exec', 'execute_query', tuple(args), tuple(kwargs)))
+                return T('tuple', (Sym('DESCRIPTION'), Sym('ROWS')))
+            if f.endswith('parser.parse') or f.split('.')[-1] == 'parse':
+                return T('call', ('parse', tuple(args), tuple(kwargs)))
+            if f.endswith('compiler.compile') or f.split('.')[-1] == 'compile':
+                e.events.append(('x-compile', 'compile', tuple(args), tuple(kwargs)))
+                return T('call', ('compile', tuple(args), tuple(kwargs)))
+            return NotImplemented
+
+        def on_isinstance(v, c, e, _p=parsed):
+            if v == QUERY:
+                return _p
+            return NotImplemented
+        n = 0
+        good = True
+        eng = Engine(P, on_call=on_call, on_isinstance=on_isinstance)
+        for p in eng.paths(ex, {'self': CUR, ex.params[1]: QUERY, ex.params[2]: PARAMS}):
+            if p.outcome != 'return':
+                continue
+            n += 1
+            comp = [e for e in p.events if e[0] == 'x-compile']
+            execs = [e for e in p.events if e[0] == 'x-exec']
+            label = 'a parsed statement' if parsed else 'statement text'
+            if len(comp) != 1 or len(execs) != 1:
+                good = False
+                res.fail(ex.fq, 'execflow:once', f'{label}: execute() must compile and execute the statement once; it compiles {len(comp)} '
+                         f'and executes {len(execs)} times', loc(ex))
+                continue
+            a = list(comp[0][2]) + [v for _, v in comp[0][3]]
+            want_q = QUERY if parsed else T('call', ('parse', (QUERY,), ()))
+            none_path = any(isinstance(t, T) and t.op == 'cmp' and t.args[0] == 'is' and t.args[1] == PARAMS and t.args[2] is None and o
+                            or isinstance(t, T) and t.op == 'cmp' and t.args[0] == 'is not' and t.args[1] == PARAMS and t.args[2] is None and not o
+                            for t, o in p.decisions)
+            if len(a) != 3 or a[0] != T('attr', (CUR, '_context')) or a[1] != want_q:
+                good = False
+                res.fail(ex.fq, 'execflow:statement', f'{label}: the compiler must receive the connection context and the statement '
+                         f'{"as given" if parsed else "parsed from the text as given"}; it receives `{", ".join(show(x)[:50] for x in a)}`', loc(ex))
+            elif a[2] != PARAMS and not none_path:
+                good = False
+                tests = [f'{show(t)[:40]} is {o}' for t, o in p.decisions]
+                res.fail(ex.fq, 'execflow:parameters', f'{label}: when {" and ".join(tests) or "always"} the compiler receives `{show(a[2])[:60]}` '
+                         f'instead of the caller\'s parameters: an empty mapping and an empty sequence are different answers to the placeholder '
+                         f'checks (missing names are a ProgrammingError, the wrong kind of container a TypeError)', loc(ex))
+            elif tuple(execs[0][2]) != (T('call', ('compile', comp[0][2], comp[0][3])),):
+                good = False
+                res.fail(ex.fq, 'execflow:compiled', f'{label}: execute_query must receive what the compiler returned; it receives '
+                         f'`{show(execs[0][2])[:80]}`', loc(ex))
+        if n == 0:
+            raise AnalysisError(f'{ex.fq}: no returning path on terms')
+        if good:
+            res.ok({'statement': 'parsed tree' if parsed else 'text', 'paths': n, 'compiler_receives': '(context, statement, parameters as given)'})
+    return res
